@@ -198,6 +198,9 @@ func (p *Protocol) Start() {
 // Stop shuts down the mini-protocol
 func (p *Protocol) Stop() {
 	p.onceStop.Do(func() {
+		if verifEnabled {
+			verifTrace(p, "stop", 0, 0, 0, nil)
+		}
 		close(p.stopChan)
 
 		// Unregister protocol from muxer
@@ -404,6 +407,9 @@ func (p *Protocol) enqueueMessage(msg Message, deliveryChan chan error) error {
 		message:      msg,
 		deliveryChan: deliveryChan,
 	}
+	if verifEnabled {
+		verifTrace(p, "enq", uint64(msg.Type()), uint64(msgLen), 0, nil)
+	}
 	select {
 	case p.sendQueueChan <- outbound:
 		return nil
@@ -414,6 +420,9 @@ func (p *Protocol) enqueueMessage(msg Message, deliveryChan chan error) error {
 	case <-p.sendDoneChan:
 	}
 
+	if verifEnabled {
+		verifTrace(p, "enqfail", uint64(msg.Type()), uint64(msgLen), 0, nil)
+	}
 	// The message was accounted for above but never reached the queue.
 	p.pendingBytesMu.Lock()
 	p.pendingSendBytes -= msgLen
@@ -436,7 +445,13 @@ func (p *Protocol) SendError(err error) {
 	// Send error to consumer
 	select {
 	case p.config.ErrorChan <- err:
+		if verifEnabled {
+			verifTrace(p, "error", 0, 0, 0, []byte(err.Error()))
+		}
 	default:
+		if verifEnabled {
+			verifTrace(p, "errdrop", 0, 0, 0, []byte(err.Error()))
+		}
 		// Discard error if the buffer is full
 		// The connection will get closed on the first error, so any
 		// additional errors are unnecessary
@@ -467,10 +482,16 @@ waitSendReadyChan:
 			return
 		case <-p.sendReadyChan:
 			// We are ready to send based on state map
+			if verifEnabled {
+				verifTrace(p, "stok", 0, 0, 0, nil)
+			}
 		}
 
 		// Check for queued state transitions
 		if len(queuedStateTransitions) > 0 {
+			if verifEnabled {
+				verifTrace(p, "strans", uint64(queuedStateTransitions[0].Type()), 1, 0, nil)
+			}
 			if err := p.transitionState(queuedStateTransitions[0]); err != nil {
 				if errors.Is(err, ErrProtocolShuttingDown) {
 					// Graceful shutdown in progress
@@ -525,6 +546,9 @@ waitSendReadyChan:
 					}
 				}
 				payloadBuf.Write(data)
+				if verifEnabled {
+					verifTrace(p, "deq", uint64(msg.Type()), uint64(len(data)), uint64(msgCount), nil)
+				}
 				// After sending, decrement pendingSendBytes
 				p.pendingBytesMu.Lock()
 				p.pendingSendBytes -= len(data)
@@ -541,6 +565,9 @@ waitSendReadyChan:
 				if queueTransition {
 					queuedStateTransitions = append(queuedStateTransitions, msg)
 				} else {
+					if verifEnabled {
+						verifTrace(p, "strans", uint64(msg.Type()), 0, 0, nil)
+					}
 					if err := p.transitionState(msg); err != nil {
 						if errors.Is(err, ErrProtocolShuttingDown) {
 							// Graceful shutdown in progress
@@ -611,6 +638,9 @@ waitSendReadyChan:
 			case <-p.recvDoneChan:
 				return
 			case p.muxerSendChan <- segment:
+				if verifEnabled {
+					verifTrace(p, "seg", uint64(segmentPayloadLength), 0, 0, nil)
+				}
 			}
 			// Remove current segment's data from buffer
 			if payloadBuf.Len() > segmentPayloadLength {
@@ -776,6 +806,9 @@ func (p *Protocol) readLoop() {
 			p.pendingRecvSizes = append(p.pendingRecvSizes, msgLen)
 			p.pendingBytesMu.Unlock()
 		}
+		if verifEnabled {
+			verifTrace(p, "rq", uint64(msg.Type()), uint64(msgLen), 0, nil)
+		}
 		// Add message to receive queue (blocking with shutdown checks)
 		select {
 		case p.recvQueueChan <- msg:
@@ -812,6 +845,9 @@ func (p *Protocol) recvLoop() {
 		case <-p.muxerDoneChan:
 			return
 		case <-p.recvReadyChan:
+			if verifEnabled {
+				verifTrace(p, "rtok", 0, 0, 0, nil)
+			}
 		}
 		// Read next message from queue
 		select {
@@ -862,6 +898,13 @@ func (p *Protocol) stateLoop(ch <-chan protocolStateTransition) {
 		p.currentStateMu.Lock()
 		p.currentState = s
 		p.currentStateMu.Unlock()
+		if verifEnabled {
+			ini := uint64(0)
+			if !initialStateSet {
+				ini = 1
+			}
+			verifTrace(p, "state", uint64(s.Id), uint64(p.config.StateMap[s].Agency), ini, nil)
+		}
 
 		// Mark protocol as ready to send/receive based on role and agency of the new state
 		switch p.config.StateMap[s].Agency {
@@ -874,12 +917,24 @@ func (p *Protocol) stateLoop(ch <-chan protocolStateTransition) {
 			case ProtocolRoleClient:
 				select {
 				case p.sendReadyChan <- true:
+					if verifEnabled {
+						verifTrace(p, "tokput", 0, 0, 0, nil)
+					}
 				default:
+					if verifEnabled {
+						verifTrace(p, "tokput", 0, 1, 0, nil)
+					}
 				}
 			case ProtocolRoleServer:
 				select {
 				case p.recvReadyChan <- true:
+					if verifEnabled {
+						verifTrace(p, "tokput", 1, 0, 0, nil)
+					}
 				default:
+					if verifEnabled {
+						verifTrace(p, "tokput", 1, 1, 0, nil)
+					}
 				}
 			}
 		case AgencyServer:
@@ -889,12 +944,24 @@ func (p *Protocol) stateLoop(ch <-chan protocolStateTransition) {
 			case ProtocolRoleServer:
 				select {
 				case p.sendReadyChan <- true:
+					if verifEnabled {
+						verifTrace(p, "tokput", 0, 0, 0, nil)
+					}
 				default:
+					if verifEnabled {
+						verifTrace(p, "tokput", 0, 1, 0, nil)
+					}
 				}
 			case ProtocolRoleClient:
 				select {
 				case p.recvReadyChan <- true:
+					if verifEnabled {
+						verifTrace(p, "tokput", 1, 0, 0, nil)
+					}
 				default:
+					if verifEnabled {
+						verifTrace(p, "tokput", 1, 1, 0, nil)
+					}
 				}
 			}
 		}
@@ -912,6 +979,9 @@ func (p *Protocol) stateLoop(ch <-chan protocolStateTransition) {
 		}
 		if timeout > 0 {
 			transitionTimer = time.NewTimer(timeout)
+			if verifEnabled {
+				verifTrace(p, "arm", uint64(s.Id), uint64(timeout), 0, nil)
+			}
 		}
 	}
 	getTimerChan := func() <-chan time.Time {
@@ -936,6 +1006,9 @@ func (p *Protocol) stateLoop(ch <-chan protocolStateTransition) {
 		case t := <-ch:
 			nextState, err := p.nextState(p.getCurrentState(), t.msg)
 			if err != nil {
+				if verifEnabled {
+					verifTrace(p, "transerr", uint64(p.getCurrentState().Id), 0, uint64(t.msg.Type()), nil)
+				}
 				t.errorChan <- fmt.Errorf(
 					"%s: error handling protocol state transition: %w",
 					p.config.Name,
@@ -948,11 +1021,17 @@ func (p *Protocol) stateLoop(ch <-chan protocolStateTransition) {
 				continue
 			}
 
+			if verifEnabled {
+				verifTrace(p, "trans", uint64(p.getCurrentState().Id), uint64(nextState.Id), uint64(t.msg.Type()), nil)
+			}
 			setState(nextState)
 			t.errorChan <- nil
 
 		case <-getTimerChan():
 			transitionTimer = nil
+			if verifEnabled {
+				verifTrace(p, "timeout", uint64(p.getCurrentState().Id), 0, 0, nil)
+			}
 
 			p.SendError(
 				fmt.Errorf(
@@ -1013,10 +1092,17 @@ func (p *Protocol) transitionState(msg Message) error {
 }
 
 func (p *Protocol) handleMessage(msg Message) error {
+	if verifEnabled {
+		verifTrace(p, "rtrans", uint64(msg.Type()), 0, 0, nil)
+	}
 	if err := p.transitionState(msg); err != nil {
 		return fmt.Errorf("%s: error handling message: %w", p.config.Name, err)
 	}
 
+	if verifEnabled {
+		verifTrace(p, "handle", uint64(msg.Type()), 0, 0, nil)
+		defer verifTrace(p, "handled", uint64(msg.Type()), 0, 0, nil)
+	}
 	// Call handler function
 	return p.config.MessageHandlerFunc(msg)
 }
